@@ -77,6 +77,9 @@ def verify_function(key, tier='quick', keep_terms=False, discharge=True):
                 env[p] = st.fresh_val(ty, p)
             if 'self' in env and env['self'].t.kind == 'ref':
                 st.assume(env['self'].z != 0)
+            if '.' in c.qual and fn.cls is not None and c.qual.count('.') >= 2:
+                # nested function: its own name is visible inside (recursion through the closure)
+                env[fn.node.name] = Val(T.FN, FnV('closure', fn.node.name, node=fn.node, env=None, cls=key))
             # default arguments may also take their declared default: covered since params are symbolic
             st.locals = dict(env)
             for rq in c.free_requires:
@@ -147,6 +150,10 @@ def verify_function(key, tier='quick', keep_terms=False, discharge=True):
         res.raw = ex.obligations if keep_terms else None
         res.entry_env = entry_env[0] if keep_terms else None
         res.entry_heap_consts = None
+        res.keepalive = ex.keepalive if keep_terms else None
+        if not discharge:
+            res.time = time.time() - t0
+            return res
         for ob in ex.obligations:
             d = dict(name=ob.name, label=ob.label, line=ob.lineno, status=ob.status, backend=ob.backend,
                      time=round(ob.time, 4), kind=ob.kind, path=list(ob.path))
@@ -182,3 +189,14 @@ def model_text(m, limit=6000):
         return txt[:limit]
     except Exception as e:
         return 'model unavailable: %s' % e
+
+
+def obligation_record(ob):
+    d = dict(name=ob.name, label=ob.label, line=ob.lineno, status=ob.status, backend=ob.backend,
+             time=round(ob.time, 4), kind=ob.kind, path=list(ob.path))
+    if ob.status == 'refuted' and ob.model is not None:
+        d['model'] = model_text(ob.model)
+    if ob.status in ('refuted', 'unknown'):
+        d['smt2_tail'] = smt.smt2_head(ob, 3000)
+        d['detail'] = ob.detail
+    return d
